@@ -116,10 +116,12 @@ def encP (r s _n : Int) : Bytes := derEncode r.toNat s.toNat
 
 def attempts (sign : Option Bytes → Bytes) (N : Nat) : List Bytes := (List.range' 0 (N + 1)).map (att sign)
 
-theorem gen_sign_input (sign : Option Bytes → Bytes) (N : Nat) (hN : N < 2 ^ 255) (dg : Bytes) (ht : Nat) :
-    (Gen.sign_input sign decP encP N dg (ht : Int)).toOption = ((signInput (attempts sign N) ht).toOption).map (·.1) := by
+theorem gen_sign_input (signer : Bytes → Option Bytes → Bytes) (N : Nat) (hN : N < 2 ^ 255) (dg : Bytes) (ht : Nat) :
+    (Gen.sign_input signer decP encP N dg (ht : Int)).toOption = ((signInput (attempts (signer dg) N) ht).toOption).map (·.1) := by
+  generalize hsg : signer dg = sign
+  have hs0 : ∀ e, signer dg e = sign e := fun e => by rw [hsg]
   unfold Gen.sign_input signInput
-  simp only []
+  simp only [hs0]
   show ((Py.index (att sign 0) 3 >>= fun t1 => (forIn [:N + 1] (att sign 0, ((0 + 1 : Nat) : Int), t1) (body sign N) >>= _)).toOption) = _
   cases h0 : Py.index (att sign 0) 3 with
   | error e =>
@@ -194,13 +196,13 @@ theorem gen_sign_input (sign : Option Bytes → Bytes) (N : Nat) (hN : N < 2 ^ 2
 /-- **strict DER, low S, low R, hash type — end to end**: if the signer's answers for attempts 0..N are DER encodings of pairs in
 range, whatever the translated `_sign_input` returns is strictly DER encoded, ends in the hash-type byte, has r < 2^255 and the low
 representative of s of the first attempt with a low r -/
-theorem gen_sign_input_spec (sign : Option Bytes → Bytes) (N : Nat) (hN : N < 2 ^ 255) (dg : Bytes) (ht : Nat) (hht : ht < 256)
+theorem gen_sign_input_spec (signer : Bytes → Option Bytes → Bytes) (N : Nat) (hN : N < 2 ^ 255) (dg : Bytes) (ht : Nat) (hht : ht < 256)
     (atts : List (Nat × Nat)) (hw : ∀ a ∈ atts, 0 < a.1 ∧ a.1 < Secp.n ∧ 0 < a.2 ∧ a.2 < Secp.n)
-    (hatts : attempts sign N = atts.map fun a => derEncode a.1 a.2)
-    (out : Bytes) (h : Gen.sign_input sign decP encP N dg (ht : Int) = .ok out) :
+    (hatts : attempts (signer dg) N = atts.map fun a => derEncode a.1 a.2)
+    (out : Bytes) (h : Gen.sign_input signer decP encP N dg (ht : Int) = .ok out) :
     ∃ (k r s s' : Nat), atts[k]? = some (r, s) ∧ isStrictDer out = true ∧ out.getLast? = some (UInt8.ofNat ht) ∧
       derDecode out.dropLast = some (r, s') ∧ r < 2 ^ 255 ∧ lowS s' = true ∧ (s' = s ∨ s' = Secp.n - s) := by
-  have hg := gen_sign_input sign N hN dg ht
+  have hg := gen_sign_input signer N hN dg ht
   rw [h, hatts] at hg
   cases hm : signInput (atts.map fun a => derEncode a.1 a.2) ht with
   | error e => rw [hm] at hg; cases hg
